@@ -617,3 +617,59 @@ func c03KeysVerbatim(r *core.Report) {
 		}
 	})
 }
+
+// c09BaseTrim: routes are registered as base + template; the base has no trailing slash.
+func c09BaseTrim(r *core.Report) {
+	p := r.Prog
+	info := p.Pkg("routers/gorillamux").TypesInfo
+	r.RunRule("C09.basetrim", "a server's base path loses its trailing slash after the server URL is complete: in gorillamux.newSrv the value stored as the base of a server is a variable that is cut by one character under a test of its last byte being '/' (or passed through strings.TrimSuffix/TrimRight with \"/\") after it was taken from the parsed URL — trimming the URL template before a whole-URL variable is substituted leaves the slash of the variable's default in place, routes are registered as `/v1//items/{id}`, and no request under that server is routed", 1, func() {
+		fd := p.DeclOf("routers/gorillamux", "newSrv")
+		ff := core.NewFuncFacts(p, info, fd)
+		n := 0
+		ast.Inspect(fd.Body, func(nd ast.Node) bool {
+			cl, ok := nd.(*ast.CompositeLit)
+			if !ok {
+				return true
+			}
+			for _, e := range cl.Elts {
+				kv, ok := e.(*ast.KeyValueExpr)
+				if !ok {
+					continue
+				}
+				if k, ok := kv.Key.(*ast.Ident); !ok || k.Name != "base" {
+					continue
+				}
+				n++
+				trimmed := false
+				isTrim := func(x ast.Expr) bool {
+					switch y := ast.Unparen(x).(type) {
+					case *ast.SliceExpr:
+						return y.High != nil && y.Low == nil
+					case *ast.CallExpr:
+						if f := core.CalleeOf(info, y); f != nil && f.Pkg() != nil && f.Pkg().Path() == "strings" && (f.Name() == "TrimSuffix" || f.Name() == "TrimRight") && len(y.Args) == 2 {
+							if s, ok := core.ConstStr(info, y.Args[1]); ok && s == "/" {
+								return true
+							}
+						}
+					}
+					return false
+				}
+				if isTrim(kv.Value) {
+					trimmed = true
+				}
+				if id, ok := ast.Unparen(kv.Value).(*ast.Ident); ok {
+					for _, a := range ff.Assigns(info.ObjectOf(id)) {
+						if a.Rhs != nil && isTrim(a.Rhs) {
+							trimmed = true
+						}
+					}
+				}
+				r.Check(trimmed, "basetrim:newSrv", p.Pos(kv.Pos()), "the base path is trimmed after parsing", "newSrv stores the path of the parsed server URL as the base as it comes (`"+core.ExprStr(kv.Value)+"`): a server URL, or the default of a variable that stands for the whole URL, ending in `/` registers every route with a doubled slash, and nothing under that server is routed")
+			}
+			return true
+		})
+		if n == 0 {
+			core.Fail("newSrv: no srv literal with a base field")
+		}
+	})
+}
